@@ -84,8 +84,9 @@ static int still_editable(cJSON *t, char *why, size_t wn)
 static void do_lookup(const jv *v)
 {
     cJSON *doc = vb_build(jv_at(v, 1)); char *p = cstr(jv_at(v, 2)); int ok = (int)jv_int(jv_at(v, 3)); cJSON *want = ok ? node_at(doc, jv_at(v, 4)) : NULL, *got, *gotci, *wantci;
-    const jv *cip = jv_at(v, 5); uint64_t h = vb_hash(doc, 0);
+    const jv *cip = jv_at(v, 5); uint64_t h = vb_hash(doc, 0); long live0 = al_live;
     al_window(0); got = cJSONUtils_GetPointerCaseSensitive(doc, p); gotci = cJSONUtils_GetPointer(doc, p);
+    if (al_live != live0 || al_bad_free) viol("C07 C15 C16", "pointer lookup leaves %ld block(s) allocated", al_live - live0);
     wantci = (cip->n == 1 && jv_int(cip->e[0]) == -1) ? NULL : node_at(doc, cip);
     if (got != want) viol("C15", "GetPointerCaseSensitive(\"%s\") returns %s, RFC 6901 designates %s", p, got ? "another node" : "NULL", want ? "a node" : "nothing");
     else if (gotci != wantci) VD.drift++;     /* case-insensitive variant: modelled, carries no property */
@@ -365,6 +366,76 @@ static void do_sort(const jv *v)
     if (al_live != 0 || al_bad_free) viol("C19 C07", "%ld block(s) remain after deleting the sorted object (members lost?)", al_live);
 }
 
+/* ["Z", n, stride]: scale cases for sorting and for the utilities that sort internally.  Keys: 'k' (or 'K' for every second member in the
+ * folded variant) and the 7 digits of (i * stride) mod n: distinct, far from sorted.  Verdict = SortVerdict of MC_UtilCheck: the same member nodes,
+ * keys non-decreasing in byte order / ASCII-folded order. */
+static int fold_cmp(const char *a, const char *b) { for (;; a++, b++) { int x = (unsigned char)*a, y = (unsigned char)*b; if (x >= 'A' && x <= 'Z') x += 32; if (y >= 'A' && y <= 'Z') y += 32; if (x != y) return x - y; if (!x) return 0; } }
+static cJSON *scale_object(long n, long st, int mixcase, long skip, long change)
+{
+    cJSON *o = cJSON_CreateObject(); long i; char key[16];
+    for (i = 0; i < n; i++) { if (i == skip) continue; snprintf(key, sizeof(key), "%c%07ld", (mixcase && (i & 1)) ? 'K' : 'k', (i * st) % n); cJSON_AddItemToObject(o, key, cJSON_CreateNumber(i == change ? -5.0 : (double)(i % 1000))); if ((i & 4095) == 0) vd_tick(); }
+    return o;
+}
+static long count_sorted(const cJSON *o, int cs, int *sorted, int *links)
+{
+    const cJSON *c, *last = NULL; long n = 0; *sorted = 1; *links = 1;
+    for (c = o->child; c; c = c->next) { if (last) { if ((cs ? strcmp(last->string, c->string) : fold_cmp(last->string, c->string)) > 0) *sorted = 0; if (c->prev != last) *links = 0; } last = c; n++; if ((n & 65535) == 0) vd_tick(); }
+    if (o->child && o->child->prev != last) *links = 0;
+    return n;
+}
+static void do_scale_sort(const jv *v)
+{
+    long n = jv_int(jv_at(v, 1)), st = jv_int(jv_at(v, 2)); int cs;
+    for (cs = 1; cs >= 0; cs--) {
+        cJSON *o = scale_object(n, st, !cs, -1, -1); int sorted, links; long m;
+        al_window(0);
+        if (cs) cJSONUtils_SortObjectCaseSensitive(o); else cJSONUtils_SortObject(o);
+        m = count_sorted(o, cs, &sorted, &links);
+        if (m != n) viol("C19", "object has %ld members after sorting %ld (members lost or duplicated)", m, n);
+        else if (!sorted) viol("C19", "after sorting %ld members the keys are not in non-decreasing %s order", n, cs ? "byte" : "ASCII-folded");
+        else if (!links) viol("C19", "after sorting %ld members the sibling links are inconsistent", n);
+        if (al_allocs) viol("C19", "sorting allocated memory");
+        cJSON_Delete(o);
+        if (al_live != 0 || al_bad_free) { viol("C19 C07", "%ld block(s) remain after deleting the sorted object of %ld members (members lost?)", al_live, n); al_case_begin(); }
+        by[0]++;
+    }
+    if (n <= 100000) {   /* patch and merge-patch generation sort both documents: they stay complete, the patch names exactly what differs */
+        cJSON *from = scale_object(n, st, 0, -1, -1), *to = scale_object(n, st, 0, n / 3, n / 2), *mp, *p; int s1, l1; long cf, ct; char k1[16], k2[16];
+        snprintf(k1, sizeof(k1), "k%07ld", ((n / 3) * st) % n); snprintf(k2, sizeof(k2), "k%07ld", ((n / 2) * st) % n);
+        al_window(0); mp = cJSONUtils_GenerateMergePatchCaseSensitive(from, to);
+        cf = count_sorted(from, 1, &s1, &l1); ct = count_sorted(to, 1, &s1, &l1);
+        if (cf != n || ct != n - 1) viol("C18 C19", "merge patch generation on objects of %ld members changed their size (from %ld, to %ld)", n, cf, ct);
+        if (!mp || cJSON_GetArraySize(mp) != 2 || !cJSON_IsNull(cJSON_GetObjectItemCaseSensitive(mp, k1)) || !cJSON_IsNumber(cJSON_GetObjectItemCaseSensitive(mp, k2)))
+            viol("C18", "the merge patch generated for objects of %ld members (one member removed, one changed) has %d member(s) and does not name exactly those two", n, mp ? cJSON_GetArraySize(mp) : -1);
+        cJSON_Delete(mp);
+        al_window(0); p = cJSONUtils_GeneratePatchesCaseSensitive(from, to);
+        cf = count_sorted(from, 1, &s1, &l1); ct = count_sorted(to, 1, &s1, &l1);
+        if (cf != n || ct != n - 1) viol("C17 C19", "patch generation on objects of %ld members changed their size (from %ld, to %ld)", n, cf, ct);
+        if (!p || cJSON_GetArraySize(p) != 2) viol("C17", "the patch generated for objects of %ld members (one member removed, one changed) has %d operation(s)", n, p ? cJSON_GetArraySize(p) : -1);
+        else { int st2 = cJSONUtils_ApplyPatchesCaseSensitive(from, p); long cc = count_sorted(from, 1, &s1, &l1); if (st2 != 0 || cc != n - 1 || cJSON_GetObjectItemCaseSensitive(from, k1) || cJSON_GetObjectItemCaseSensitive(from, k2)->valuedouble != -5.0) viol("C17", "applying the patch generated for objects of %ld members does not give 'to' (status %d)", n, st2); }
+        cJSON_Delete(p); cJSON_Delete(from); cJSON_Delete(to);
+        if (al_live != 0 || al_bad_free) { viol("C07 C17 C18", "%ld block(s) remain after generation on objects of %ld members", al_live, n); al_case_begin(); }
+    }
+}
+
+/* ["Q", keys, name, cs, index]: an object with these member keys; the lookup by name must give member index (1-based, 0 = none): C06 */
+static void do_keyquery(const jv *v)
+{
+    const jv *keys = jv_at(v, 1); char *name = cstr(jv_at(v, 2)); int cs = (int)jv_int(jv_at(v, 3)); long want = jv_int(jv_at(v, 4)); size_t n = keys->n, i; cJSON *o = cJSON_CreateObject(), *got, *d; long idx = 0; const cJSON *c;
+    for (i = 0; i < n; i++) cJSON_AddItemToObject(o, cstr(keys->e[i]), cJSON_CreateNumber((double)(i + 1)));
+    al_window(0);
+    got = cs ? cJSON_GetObjectItemCaseSensitive(o, name) : cJSON_GetObjectItem(o, name);
+    if (got) for (c = o->child, idx = 1; c && c != got; c = c->next) idx++;
+    if (idx != want) viol("C06", "%s with a name of %zu bytes returns member %ld, the first member with that key is %ld (0 = none)", cs ? "cJSON_GetObjectItemCaseSensitive" : "cJSON_GetObjectItem", strlen(name), idx, want);
+    if (!cs && (cJSON_HasObjectItem(o, name) != 0) != (want != 0)) viol("C06", "cJSON_HasObjectItem with a name of %zu bytes answers %s", strlen(name), want ? "no" : "yes");
+    d = cs ? cJSON_DetachItemFromObjectCaseSensitive(o, name) : cJSON_DetachItemFromObject(o, name);
+    if ((d != NULL) != (want != 0) || (d && d->valueint != (int)want)) viol("C06", "detaching by a name of %zu bytes (%s) takes %s", strlen(name), cs ? "case sensitive" : "case insensitive", d ? "another member or a member although none has that key" : "nothing although a member has that key");
+    if (cJSON_GetArraySize(o) != (int)n - (d ? 1 : 0)) viol("C06", "object size after detaching by name is wrong");
+    cJSON_Delete(d); cJSON_Delete(o);
+    if (al_live != 0 || al_bad_free) viol("C07 C06", "%ld block(s) remain after the key queries", al_live);
+    by[0]++;
+}
+
 int vd_utils_main(int argc, char **argv);
 int vd_utils_main(int argc, char **argv)
 {
@@ -384,7 +455,7 @@ int vd_utils_main(int argc, char **argv)
             al_in_call = 1;
             if (kind[0] == 'G') do_lookup(v); else if (kind[0] == 'F') do_find(v); else if (kind[0] == 'A') do_apply(v);
             else if (kind[0] == 'M') do_merge(v); else if (kind[0] == 'P') do_pair(v);
-            else if (kind[0] == 'D') do_dup(v); else if (kind[0] == 'S') do_sort(v);
+            else if (kind[0] == 'D') do_dup(v); else if (kind[0] == 'S') do_sort(v); else if (kind[0] == 'Z') do_scale_sort(v); else if (kind[0] == 'Q') do_keyquery(v);
             else { fprintf(stderr, "vdrv: unknown line kind %s\n", kind); return 2; }
             al_in_call = 0; VD_END();
         } else { al_in_call = 0; viol("*", "memory fault or hang in a utility call (line kind %s, address %p)", kind, (void*)vd_fault_addr); }
